@@ -1259,8 +1259,15 @@ func preferenceOrder(c *core.Ctx) {
 					okPath = true
 				}
 			}
-			if id, ok := e.(*ast.Ident); ok && id.Name == "ok" && f.Pol {
-				okPath = true
+			// the comma-ok of the lookup in the registered pools, whatever it is called
+			if o := astx.ObjOf(info, e); o != nil && f.Pol {
+				for _, st := range s.Steps {
+					if as, isAs := st.(*ast.AssignStmt); isAs && len(as.Lhs) == 2 && len(as.Rhs) == 1 && astx.ObjOf(info, as.Lhs[1]) == o {
+						if ie, isIdx := astx.Unparen(as.Rhs[0]).(*ast.IndexExpr); isIdx && astx.IsFieldNamed(info, ie.X, "CompressionPools") && astx.IsFieldNamed(info, ie.Index, "RequestCompressionName") {
+							okPath = true
+						}
+					}
+				}
 			}
 		}
 		if !okPath {
